@@ -41,7 +41,8 @@ TREE = [('a', 'f', None), ('b', 'f', None), ('.h', 'f', None), ('d', 'd', None),
         ('d/e', 'd', None), ('d/e/ab', 'f', None), ('L', 'l', 'd'), ('A', 'f', None), ('c.d', 'f', None)]
 
 FN_SETS = [(), ('EXTMATCH',), ('EXTMATCH', 'DOTMATCH'), ('IGNORECASE',), ('EXTMATCH', 'FORCEWIN'), ('EXTMATCH', 'NEGATE'),
-           ('EXTMATCH', 'SPLIT'), ('EXTMATCH', 'BRACE'), ('EXTMATCH', 'CASE', 'IGNORECASE'), ('RAWCHARS',), ('EXTMATCH', 'NEGATE', 'NEGATEALL')]
+           ('EXTMATCH', 'SPLIT'), ('EXTMATCH', 'BRACE'), ('EXTMATCH', 'CASE', 'IGNORECASE'), ('RAWCHARS',), ('EXTMATCH', 'NEGATE', 'NEGATEALL'),
+           ('SPLIT',), ('BRACE',), ('SPLIT', 'BRACE'), ('EXTMATCH', 'SPLIT', 'BRACE'), ('SPLIT', 'NEGATE'), ('SPLIT', 'DOTMATCH')]
 GL_SETS = FN_SETS + [('EXTMATCH', 'GLOBSTAR'), ('EXTMATCH', 'GLOBSTAR', 'DOTMATCH'), ('MATCHBASE',), ('EXTMATCH', 'NODIR'),
                      ('EXTMATCH', 'GLOBSTARLONG'), ('EXTMATCH', 'NODOTDIR')]
 NAMES = ['a', 'b', 'ab', '.a', 'A', 'a.b', 'aa', 'ba', 'a/b', 'd/a', 'd/e/ab', '.h', 'c.d', 'B', 'a|b', '{a,b}', '!a', 'x', 'a/', 'b/a/ab']
@@ -61,12 +62,13 @@ def build_pool(seed, n_texts=640):
             continue
         seen.add(t)
         texts.append(t)
-    fixed = ['*', '?', '*.d', 'a*', '[ab]', '!a', 'a|b', '{a,b}', '**', '**/a', '@(a|b)', '!(a)', '*(a)', '.*', '\\x61', 'd/*', '*/a', 'A', 'a']
+    fixed = ['*', '?', '*.d', 'a*', '[ab]', '!a', 'a|b', '{a,b}', '**', '**/a', '@(a|b)', '!(a)', '*(a)', '.*', '\\x61', 'd/*', '*/a', 'A', 'a',
+             '+(a|b)', '*(a|b)b', '[a/|b]x', '[a|b]', '{a,b}|c', '@(a|{b,c})', 'a\\|b', '!(a|b)|a', 'd/@(a|e)', '~', '-a', '{a..c}']
     texts = fixed + texts
     pool = []
     for i, t in enumerate(texts):
-        heavy = i < len(fixed) + 60      # these texts appear under many flag sets / types / apis (cache key collisions)
-        nsets = 5 if heavy else 1
+        heavy = i < len(fixed) + 40      # these texts appear under many flag sets / types / apis (cache key collisions)
+        nsets = 7 if heavy else 1
         for _ in range(nsets):
             glob_mode = rng.random() < 0.5
             fs = rng.choice(GL_SETS if glob_mode else FN_SETS)
@@ -285,7 +287,14 @@ def run(ctx):
         # ---- (a) fresh interpreters ------------------------------------------------------------------------
         mine = [c['id'] for c in pool if ctx.mine(c['id'])]
         rng = ctx.rng_for('fresh', ctx.shard)
-        for cid in rng.sample(mine, min(len(mine), 12 if quick else 60)):
+        # every call of this shard's slice once in an interpreter of its own (the slices partition the pool); in the quick
+        # tier the colliding ("hot") calls first, then a sample of the others
+        hot_ids = [cid for cid in mine if len(texts[pool[cid]['pat']]) > 2]
+        cold_ids = [cid for cid in mine if cid not in set(hot_ids)]
+        todo = hot_ids + (rng.sample(cold_ids, min(len(cold_ids), 10)) if quick else cold_ids)
+        for cid in todo:
+            if ctx.out_of_time() and quick and ctx.counters.get('fresh_interpreter_calls', 0) > 30:
+                break
             with ctx.case(timeout=120, label=('fresh', cid)):
                 got = run_fresh(ctx.seed, root, [cid])[cid]
                 ctx.count('fresh_interpreter_calls')
